@@ -259,6 +259,8 @@ def run(ctx) -> core.Report:
                            "missing variable}; vector / matrix / scalar nodes on the general path; seeded random regular trees. "
                            "non-trivial = distinct (expression, V) whose symbolic Hessian is not identically 0")
     J.AUDIT_SKIPPED.clear()
+    del J.RETAINED[:]
+    del J.RETAINED_FAILS[:]
     cases = cases_for(rng, thorough)
     for k, v in J.AUDIT_SKIPPED.items():
         rep.skipped[k] = rep.skipped.get(k, 0) + v
@@ -362,6 +364,8 @@ def run(ctx) -> core.Report:
             for f in fails:
                 f["exprs_repr"] = [repr(e)[:200]]; f["V_names"] = [v.name for v in V]; f["x"] = pt; f["tag"] = tag
                 rep.oracle_failures.append(f)
+    J.recheck_retained()
+    rep.oracle_failures.extend(J.RETAINED_FAILS)
     # a sample of the cells again with every recursion threshold forced low (explicit-stack differentiator / compiler)
     with J.forced_thresholds(2):
         for tag, e, V, xs, params, idx in metas[::(3 if thorough else 9)]:
